@@ -252,6 +252,11 @@ DoubleSupport::divide(
 
 
 
+// A double in [-2^63, 2^63) can be converted to a 64-bit integer.
+static const double     s_integerLimit = 9223372036854775808.0;
+
+
+
 double
 DoubleSupport::modulus(
             double  theLHS,
@@ -269,9 +274,19 @@ DoubleSupport::modulus(
     {
         return getNaN();
     }
-    else if (long(theLHS) == theLHS && long(theRHS) == theRHS)
+    else if (theLHS >= -s_integerLimit && theLHS < s_integerLimit &&
+             theRHS >= -s_integerLimit && theRHS < s_integerLimit &&
+             XMLInt64(theLHS) == theLHS && XMLInt64(theRHS) == theRHS)
     {
-        return long(theLHS) % long(theRHS);
+        // Both operands are integers that can be converted, and theRHS
+        // is not 0.  Any integer modulo -1 is 0; computing it would
+        // overflow for the smallest integer.
+        if (theRHS == -1.0)
+        {
+            return 0.0;
+        }
+
+        return double(XMLInt64(theLHS) % XMLInt64(theRHS));
     }
     else
     {
